@@ -857,10 +857,14 @@ META = {
             "variable -> variable chains, unification as UnifyTermsExtend, the let path through AsConstSubstList) judges every "
             "variant directly (judge_uf) and every original next to the first model; theorems: it is conservative over the "
             "first model (same solutions, facts and program outcome wherever that one answers, so the least-model theorem "
-            "transfers), every solution resolves the variables of positive atoms and everything aliased to them through any "
+            "transfers; on programs passing a syntactic test - no variable = variable equality with both sides possibly "
+            "unbound, implied by CheckRule acceptance plus C04's alias_free - the two models have the same outcome "
+            "including errors, so the least-model theorem holds for the union-find model with no hypothesis about the "
+            "first), every solution resolves the variables of positive atoms and everything aliased to them through any "
             "chain, its one-pass lookup equals the chain-following find, a strict run derives exactly the head instances of "
             "the valuations satisfying every premise (order-independent), and eliminating an alias variable (equality "
-            "anywhere in the body, either orientation) does not change the facts a clause derives. Wildcards inside negated "
+            "anywhere in the body, either orientation) does not change the facts a clause derives, nor does removing the "
+            "premise V = V it leaves behind. Wildcards inside negated "
             "atoms (`!r(X, _)`, `!r(_, _)`, `!r(X, _, X)`; the generator of the main stream never writes them) have a stream of "
             "their own: generated programs get `_` into existing negated atoms and new negated atoms with wildcards over "
             "lower-layer / extensional predicates at any body position behind their binders, and are compared with the first "
@@ -868,7 +872,8 @@ META = {
             "the least-model theorems use: such an atom holds iff no valuation of its unbound variables (each `_` a variable "
             "of its own) makes it a fact of the completed lower strata.",
     "note": "Trusted: Coq kernel + vm_compute; the hand-written models are tied to the Go code only by differential evaluation "
-            "(sampled; exhaustive on the 2-rule schema). The least-model theorems are about the alias-free model; for aliasing "
+            "(sampled; exhaustive on the 2-rule schema). The least-model theorems are about the alias-free model and, for "
+            "programs passing the no-alias test (strata_exact_uf_static / strata_exact_uf_checked), the union-find model; for aliasing "
             "clauses the machine-checked part is per clause (alias_elimination_sound, under the hypotheses that both strict "
             "runs finish and transform variables do not occur in the body), the whole-program equality of variant and "
             "original is tested (Go vs Go, Go vs alias-aware model), not proved. Safety of clauses (C04), do-transforms "
